@@ -48,6 +48,37 @@ struct Pools {
     table: Node,       // named tuple with integer columns "a", "b" and a payload
 }
 
+/// a library custom operation of the given family with parameters chosen by `sel`
+pub fn make_family_op(fam: &str, sel: u64) -> CustomOperation {
+    let signed = sel % 2 == 0;
+    match fam {
+        "GreaterThan" => CustomOperation::new(GreaterThan { signed_comparison: signed }),
+        "LessThan" => CustomOperation::new(LessThan { signed_comparison: signed }),
+        "GreaterThanEqualTo" => CustomOperation::new(GreaterThanEqualTo { signed_comparison: signed }),
+        "LessThanEqualTo" => CustomOperation::new(LessThanEqualTo { signed_comparison: signed }),
+        "Equal" => CustomOperation::new(Equal {}),
+        "NotEqual" => CustomOperation::new(NotEqual {}),
+        "Min" => CustomOperation::new(Min { signed_comparison: signed }),
+        "Max" => CustomOperation::new(Max { signed_comparison: signed }),
+        "BinaryAdd" => CustomOperation::new(BinaryAdd { overflow_bit: signed }),
+        "Mux" => CustomOperation::new(Mux {}),
+        "Not" => CustomOperation::new(Not {}),
+        "Or" => CustomOperation::new(Or {}),
+        "Clip2K" => CustomOperation::new(Clip2K { k: 1 + sel % 6 }),
+        "SortByIntegerKey" => CustomOperation::new(SortByIntegerKey { key: if signed { "a".into() } else { "b".into() } }),
+        "LongDivision" => CustomOperation::new(LongDivision { signed }),
+        "NewtonInversion" => CustomOperation::new(NewtonInversion { iterations: 1 + sel % 4, denominator_cap_2k: 6 + sel % 6 }),
+        "GoldschmidtDivision" => CustomOperation::new(GoldschmidtDivision { iterations: 1 + sel % 4, denominator_cap_2k: 6 + sel % 6 }),
+        "InverseSqrt" => CustomOperation::new(InverseSqrt { iterations: 1 + sel % 4, denominator_cap_2k: 6 + 2 * (sel % 4) }),
+        "TaylorExponent" => CustomOperation::new(TaylorExponent { taylor_terms: 3 + sel % 4, fixed_precision_points: 4 + sel % 8 }),
+        "ApproxExponent" => CustomOperation::new(ApproxExponent { precision: 4 + sel % 8 }),
+        "ApproxSigmoid" => CustomOperation::new(ApproxSigmoid { precision: 6 + sel % 6, approximation_log_buckets: 3 + sel % 3 }),
+        "ApproxGelu" => CustomOperation::new(ApproxGelu { precision: 6 + sel % 6, approximation_log_buckets: 3 + sel % 3 }),
+        "ApproxGeluDerivative" => CustomOperation::new(ApproxGeluDerivative { precision: 6 + sel % 6, approximation_log_buckets: 3 + sel % 3 }),
+        _ => CustomOperation::new(FixedMultiply { config: FixedPrecisionConfig { fractional_bits: 4 + sel % 12, debug: sel % 3 == 0 } }),
+    }
+}
+
 /// add one custom node of the given family with random parameters; returns (node, param description)
 fn add_op(g: &Graph, p: &mut Pools, rng: &mut Rng, fam: &str, force: Option<u64>) -> Result<(Node, String)> {
     let pick = |v: &Vec<Node>, rng: &mut Rng| v[rng.usize(v.len())].clone();
